@@ -64,9 +64,70 @@ def run(prog):
                 bad = [o for o in ops if o in BAD_OPS]
                 if bad:
                     errs.append("%s: the children's variable sets are combined with `%s`, which drops variables" % (V["name"], bad[0]))
+    if errs:
+        # the collector may work by effect: a private recursive worker that adds to an accumulator handed down by
+        # `&mut` (`fn collect(&self, acc: &mut Set)`); then the obligations are about the worker's calls per variant
+        eff = effect_mode(prog, fn, variants)
+        if eff is not None:
+            errs, n, covered = eff
     missing = [v["name"] for i, v in enumerate(variants) if i not in covered]
     if missing:
         errs.append("?no return alternative recognised for variant(s) %s" % ", ".join(missing))
     return [inst("UV", key, VIOLATION if errs else OK, fn, None,
                  "; ".join(dict.fromkeys(errs)) if errs else
                  "%d return alternatives cover the %d variants; every sub-formula is visited and the sets are united" % (n, len(variants)))]
+
+
+def _variants_at(te, bb, nvar):
+    cands = set(range(nvar))
+    for c, v, _, _ in te.facts_at(bb):
+        if isinstance(c, tuple) and c and c[0] == "discr" and key_of(c[1]) == "arg1":
+            if isinstance(v, tuple) and v and v[0] == "not":
+                cands -= {int(x) for x in v[1] if str(x).isdigit()}
+            elif isinstance(v, tuple) and v and v[0] == "in":
+                cands &= {int(x) for x in v[1] if str(x).isdigit()}
+            elif str(v).isdigit():
+                cands &= {int(v)}
+    return cands
+
+
+def effect_mode(prog, fn, variants):
+    """(errs, number of worker call sites, covered variants) when `fn` delegates to a self-recursive worker over the
+    enum that fills an accumulator; None when there is no such worker"""
+    workers = []
+    for cs in fn.terms.calls:
+        if cs.callee.local:
+            for g in prog.resolve(cs.callee):
+                if g.impl_self == ADT and any(c2.callee.name == g.name and g in prog.resolve(c2.callee) for c2 in g.terms.calls):
+                    workers.append(g)
+    if len(workers) != 1:
+        return None
+    g = workers[0]
+    te = g.terms
+    errs, covered, n = [], set(), 0
+    rec = [cs for cs in te.calls if cs.callee.name == g.name and g in prog.resolve(cs.callee)]
+    adds = [cs for cs in te.calls if cs.callee.name in ("insert", "push", "extend", "replace", "get_or_insert")]
+    bad_ops = [cs.callee.name for cs in te.calls if cs.callee.name in BAD_OPS or cs.callee.name in ("remove", "clear", "drain", "take")]
+    for vi, V in enumerate(variants):
+        rec_fields = [f["name"] for f in V["fields"] if ADT in f["ty"]]
+        name_fields = [f["name"] for f in V["fields"] if "String" in f["ty"]]
+        for f in rec_fields:
+            want = "(arg1 as %s).%s" % (V["name"], f)
+            hit = [cs for cs in rec if vi in _variants_at(te, cs.bb, len(variants)) and want in key_of(cs.args[0])]
+            n += len(hit)
+            if not hit:
+                errs.append("%s: the worker `%s` is not called on sub-formula .%s" % (V["name"], g.name, f))
+            else:
+                covered.add(vi)
+        for f in name_fields:
+            want = "(arg1 as %s).%s" % (V["name"], f)
+            hit = [cs for cs in adds if vi in _variants_at(te, cs.bb, len(variants)) and any(want in key_of(a) for a in cs.args[1:])]
+            if not hit:
+                errs.append("%s: the variable's own name is not added to the accumulator" % V["name"])
+            else:
+                covered.add(vi)
+        if not rec_fields and not name_fields:
+            covered.add(vi)
+    if bad_ops:
+        errs.append("the worker `%s` also removes from the accumulator (`%s`)" % (g.name, bad_ops[0]))
+    return errs, max(n, 1), covered
